@@ -169,12 +169,22 @@ type scenario struct {
 	watch    map[string]chan struct{}
 
 	connOK    int32 // successful dials
+	connected int32 // 1 while the client holds a connection (hook view)
+	dialFails int   // failed dials so far
+	curID     int   // pack of the send in progress (last Built)
 	lastLen   int
 	accum     int64
 	bytesOK   int64 // bytes the client was told were flushed on the current connection
 	processed int32 // packs the worker is done with (flushed events)
 	notes     []string
+
+	nsend   int      // sender goroutines used (statistics)
+	nextID  int      // last pack id handed out
+	cutDesc []string // the fault script, for the statistics
 }
+
+// waitMax bounds every wait FOR a state (never an ordering); reaching it is a harness problem, reported as such.
+const waitMax = 90 * time.Second
 
 var registry sync.Map // *oneway.OneWayTcpClient -> *scenario
 var hookOnce sync.Once
@@ -244,14 +254,19 @@ func (sc *scenario) hook(name string, args ...interface{}) {
 		if sc.mode == "direct" {
 			a = sname(ps.sender)
 		}
+		sc.curID = ps.id
 		sc.add(t, t, core.Ev{"ev": "Built", "a": a, "id": ps.id, "flen": flen})
 		g = sc.gates[fmt.Sprintf("built:%d", ps.id)]
 	case "connect":
-		ok := args[1] == nil
+		ok := args[1].(bool)
 		if ok {
 			atomic.AddInt32(&sc.connOK, 1)
+			atomic.StoreInt32(&sc.connected, 1)
 			atomic.StoreInt64(&sc.bytesOK, 0)
 			sc.accum = 0
+		} else {
+			sc.dialFails++
+			g = sc.gates[fmt.Sprintf("dialfail:%d", sc.dialFails)]
 		}
 		sc.add(t, t, core.Ev{"ev": "Connect", "a": sc.actor(), "ok": ok})
 	case "sent":
@@ -262,6 +277,7 @@ func (sc *scenario) hook(name string, args ...interface{}) {
 			sc.accum = 0
 		}
 		sc.add(t, t, core.Ev{"ev": "Sent", "a": sc.actor(), "err": err})
+		g = sc.gates[fmt.Sprintf("sent:%d", sc.curID)]
 	case "flushed":
 		err := args[1] != nil
 		if !err {
@@ -271,6 +287,7 @@ func (sc *scenario) hook(name string, args ...interface{}) {
 		sc.add(t, t, core.Ev{"ev": "Flushed", "a": sc.actor(), "err": err})
 		atomic.AddInt32(&sc.processed, 1)
 	case "close":
+		atomic.StoreInt32(&sc.connected, 0)
 		sc.add(t, t, core.Ev{"ev": "Close", "a": sc.actor()})
 	case "dequeued":
 		ps := sc.specOf(args[0].(*wnet.TcpSend).Pack)
@@ -335,20 +352,25 @@ func (sc *scenario) settle() {
 	if n == 0 {
 		return
 	}
-	waitUntil(5*time.Second, func() bool {
+	err := waitUntil(waitMax, func() bool {
 		cr := sc.col.conn(n - 1)
 		if cr == nil {
 			return false
 		}
 		return isDone(cr) || atomic.LoadInt64(&cr.read) >= atomic.LoadInt64(&sc.bytesOK)
 	})
+	if err != nil {
+		sc.note("settle: the collector did not read what was flushed")
+	}
 }
 
 // quiesce waits until every connection the client established has been accepted.
 func (sc *scenario) quiesce() {
-	waitUntil(5*time.Second, func() bool {
+	if err := waitUntil(waitMax, func() bool {
 		return atomic.LoadInt32(&sc.col.accepted) >= atomic.LoadInt32(&sc.connOK)
-	})
+	}); err != nil {
+		sc.note("quiesce: an established connection was never accepted")
+	}
 }
 
 func (sc *scenario) listenerDown() {
@@ -400,12 +422,13 @@ func newScenario(gen string, cas int, r *rand.Rand, cf scConf) (*scenario, error
 	if err != nil {
 		return nil, err
 	}
+	sc := &scenario{gen: gen, cas: cas, mode: cf.mode, qcap: cf.qcap, col: col, nondet: cf.nondet,
+		packs: map[*pack.TextPack]*packSpec{}, gates: map[string]*gate{}, watch: map[string]chan struct{}{}}
+	col.dialed = func(i int) bool { return int(atomic.LoadInt32(&sc.connOK)) > i }
 	if err := col.up(); err != nil {
 		col.release()
 		return nil, err
 	}
-	sc := &scenario{gen: gen, cas: cas, mode: cf.mode, qcap: cf.qcap, col: col, nondet: cf.nondet,
-		packs: map[*pack.TextPack]*packSpec{}, gates: map[string]*gate{}, watch: map[string]chan struct{}{}}
 	sfx := fmt.Sprintf("%04x", r.Intn(1<<16))
 	sc.deflic = "x41f2-lic-default-" + sfx
 	sc.lics = []string{sc.deflic, "x9a-lic-B-" + sfx, "lic-C-" + sfx + "-한"}
@@ -426,33 +449,6 @@ func newScenario(gen string, cas int, r *rand.Rand, cf scConf) (*scenario, error
 		registry.Store(sc.cl, sc)
 	}
 	return sc, nil
-}
-
-// genPacks makes the packs of `senders` goroutines x `per` sends; sizes from sizeFn.
-func genPacks(sc *scenario, r *rand.Rand, senders, per int, sizeFn func(r *rand.Rand) int) [][]*packSpec {
-	out := make([][]*packSpec, senders)
-	id := 0
-	pcodes := []int64{0, 7, -3, 300, 70000, 1 << 24, 1234567890123, -(1 << 40), 1<<62 + 5}
-	for s := 0; s < senders; s++ {
-		for k := 0; k < per; k++ {
-			id++
-			ps := &packSpec{id: id, sender: s, pcode: pcodes[r.Intn(len(pcodes))], oid: int32(r.Uint32()), n: sizeFn(r),
-				div: byte(1 + r.Intn(60)), hash: int32(r.Uint32())}
-			switch r.Intn(5) {
-			case 0:
-				ps.lic = sc.lics[1]
-			case 1:
-				ps.lic = sc.lics[2]
-			case 2:
-				if r.Intn(3) == 0 {
-					ps.lic = sc.deflic // an override equal to the default
-				}
-			}
-			ps.expect()
-			out[s] = append(out[s], ps)
-		}
-	}
-	return out
 }
 
 func mixedSize(r *rand.Rand) int {
@@ -505,7 +501,7 @@ func (sc *scenario) finish(c *core.Ctx, t *core.Trace, emit *sync.Mutex) {
 	for _, cr := range sc.col.all() {
 		select {
 		case <-cr.done:
-		case <-time.After(20 * time.Second):
+		case <-time.After(waitMax):
 			timedOut = true
 		}
 	}
@@ -528,7 +524,7 @@ func (sc *scenario) finish(c *core.Ctx, t *core.Trace, emit *sync.Mutex) {
 	emit.Lock()
 	defer emit.Unlock()
 	t.Reset(sc.gen, sc.cas, core.Ev{"mode": sc.mode, "queue": sc.mode != "direct", "qcap": sc.qcap, "deflic": sc.deflic,
-		"lics": lics, "conns": conns, "nondet": sc.nondet})
+		"lics": lics, "proph": conns, "nondet": sc.nondet})
 	for _, e := range sc.evs {
 		t.Emit(e.ev)
 	}
